@@ -28,7 +28,7 @@ PROPS["C20"]["level_text"] = (
     "big-endian bits, any sequence), more in Stef/Props/C20.lean; the model is tied to go/pkg by regenerated tables/"
     "constants and by op-for-op differential runs over all 65 varint classes x 64 alignments.")
 
-HOOK_COMMITS = []
+HOOK_COMMITS = ["dfe47e0", "f85f827"]
 NOT_CLAIMED = {
     "C11": ("byte equality between checked-in files and the output of text/template + gofmt (and the Java templates): "
             "no Lean model short of a semantics of text/template and gofmt can state it; a theorem about less would be a diff "
